@@ -211,6 +211,9 @@ func (e *Evaluator) evalString(str string) (*Cell, error) {
 }
 
 func (e *Evaluator) evalExpr(expr Expr) (*Cell, error) {
+	if err := e.verifStep(); err != nil {
+		return nil, err
+	}
 	switch exp := expr.(type) {
 	case *ExprLiteral:
 		switch exp.token.Tag {
@@ -845,6 +848,9 @@ func (e *Evaluator) evalExprList(exprs []Expr, copy bool) ([]*Cell, error) {
 }
 
 func (e *Evaluator) evalStatement(stmt Statement) error {
+	if err := e.verifStep(); err != nil {
+		return err
+	}
 	switch st := stmt.(type) {
 	case *StatementBlock:
 		for _, s := range st.Body {
